@@ -270,7 +270,7 @@ class Xray(object):
             if symbol != 'n' and os.path.exists(filename):
                 xsf = numpy.loadtxt(filename, skiprows=1).T
                 xsf[1, xsf[1] == -9999.] = numpy.nan
-                xsf[0] *= 0.001  # Use keV in table rather than eV
+                xsf[0] /= 1000.  # Use keV in table rather than eV
                 self._table = xsf
         return self._table
     sftable = property(_gettable, doc="X-ray scattering factor table (E,f1,f2)")
